@@ -20,12 +20,12 @@ func init() {
 			"distinct_nontrivial = distinct (config, schedule signature) of family-(a) runs with >=2 overlapping Gets on one key plus distinct family-(b) cells",
 		Required:    []string{"a.runs", "a.success_then_quiet.checked", "a.bursts.one_build", "a.suppression.checked", "b.sequences", "b.gets", "c.expiry.checked", "c.rebuild_after_elapse.checked", "api.Failover", "api.FailoverOf"},
 		Assumptions: []string{"suppression window is judged only for events whose monotonic timestamps lie within 0.9*FailedUpdateTTL of the failure (sound under load)", "without SyncRead redundant sequential builds are documented behaviour and only counted"},
-		Timeout:     func(string) time.Duration { return 25 * time.Minute },
+		Timeout:     func(string) time.Duration { return 45 * time.Minute },
 	})
 }
 
 func runC05(b *Batch) {
-	n := b.Pick(3200, 96000) / b.NBatches
+	n := b.Pick(3200, 640000) / b.NBatches
 	for i := 0; i < n; i++ {
 		if b.Skip(i) {
 			continue
